@@ -185,3 +185,140 @@ Proof.
   destruct (close_res s) as [[|]|]; try discriminate; [reflexivity|].
   destruct Hor as [F|F]; [rewrite F in Hn; discriminate | congruence].
 Qed.
+
+(** ** the statements exported by Props/C06.v *)
+Lemma exec_app s a b : exec s (a ++ b) = exec (exec s a) b.
+Proof.
+  revert s. induction a as [|l a IH]; intros s; simpl; [reflexivity|].
+  destruct (step s l); apply IH.
+Qed.
+
+Lemma ret_step s l s' c r : step s l = Some s' -> cp s c = CRet r -> cp s' c = CRet r.
+Proof. intros H Hc. destruct l; step_cases H; simpl; upd_all; congruence. Qed.
+Lemma ret_exec s ls c r : cp s c = CRet r -> cp (exec s ls) c = CRet r.
+Proof.
+  revert s. induction ls as [|l ls IH]; intros s Hc; simpl; [assumption|].
+  destruct (step s l) eqn:E; [apply IH; eapply ret_step; eassumption | apply IH; assumption].
+Qed.
+
+Theorem close_nil_implies_quiescent n hon f6 f12 sched c :
+  let s := exec (init n hon true f6 f12) sched in
+  cp s c = CRet RNil -> (f12 = true \/ close_res s <> Some RErr) -> quiescent s.
+Proof.
+  intros s Hc Hor. pose proof (Inv_reach n hon true f6 f12 sched) as I. fold s in I.
+  destruct (flags_exec (init n hon true f6 f12) sched) as (F5 & _ & F12 & _). fold s in F5, F12. simpl in F5, F12.
+  apply quiescent_of_nil_result; [assumption | assumption |].
+  apply returned_nil_result with (c := c); [assumption | assumption |].
+  destruct Hor as [->|Hne]; [left; assumption | right; assumption].
+Qed.
+
+(** ... and it stays so: nothing is handled, dispatched or received after a nil return *)
+Theorem nothing_starts_after_nil_close n hon f6 sched more c :
+  cp (exec (init n hon true f6 true) sched) c = CRet RNil ->
+  quiescent (exec (init n hon true f6 true) (sched ++ more)).
+Proof.
+  intros Hc. apply close_nil_implies_quiescent with (c := c); [|left; reflexivity].
+  rewrite exec_app. apply ret_exec. assumption.
+Qed.
+
+Theorem run_returns_after_close n hon f5 f6 f12 sched :
+  let s := exec (init n hon f5 f6 f12) sched in
+  run s = RDone ->
+  closedCh s = true /\ close_res s <> None /\ (forall c, cp s c <> CWait /\ cp s c <> CSignal) /\
+  (f5 = true -> close_res s = Some RNil -> quiescent s).
+Proof.
+  intros s Hr. pose proof (Inv_reach n hon f5 f6 f12 sched) as I. fold s in I.
+  pose proof (c_run2 s (i_c s I) Hr) as Hcl.
+  split; [assumption|]. split.
+  - intros Hn. apply (c_res s (i_c s I)) in Hn. congruence.
+  - split.
+    + intros c. split; intros Hc.
+      * destruct (c_wait s (i_c s I) c Hc) as (_ & Hx & _). congruence.
+      * destruct (c_sig s (i_c s I) c Hc) as (_ & Hx).
+        destruct (c_closing0 s (i_c s I) Hx) as (Hy & _). congruence.
+    + intros F5 Hres. apply quiescent_of_nil_result; [assumption | | assumption].
+      destruct (flags_exec (init n hon f5 f6 f12) sched) as (F & _). fold s in F. simpl in F. congruence.
+Qed.
+
+Theorem no_panic n hon f5 f6 f12 sched : panicked (exec (init n hon f5 f6 f12) sched) = false.
+Proof. apply (i_np _ (Inv_reach n hon f5 f6 f12 sched)). Qed.
+
+Theorem close_exclusive n hon f5 f6 f12 sched c1 c2 :
+  let s := exec (init n hon f5 f6 f12) sched in
+  holds (cp s c1) = true -> holds (cp s c2) = true -> c1 = c2.
+Proof.
+  intros s H1 H2. pose proof (i_c s (Inv_reach n hon f5 f6 f12 sched)) as IC.
+  pose proof (c_lock2 s IC c1 H1) as E1. pose proof (c_lock2 s IC c2 H2) as E2. congruence.
+Qed.
+
+(** every Close call can always move: the lock holder is never blocked (the timeout bounds
+    its wait), a caller that wants the lock waits only for a holder that can move *)
+Definition closer_can_move (s : state) (c : cid) : Prop :=
+  step s (LClose c) <> None \/ step s (LTimeout c) <> None.
+
+Lemma holder_moves s c : holds (cp s c) = true -> closer_can_move s c.
+Proof.
+  intros H. unfold closer_can_move, step.
+  destruct (cp s c) eqn:E; simpl in H; try discriminate.
+  all: first [ left; destruct (closed s); discriminate | right; discriminate ].
+Qed.
+
+Theorem close_never_stuck n hon f5 f6 f12 sched c :
+  let s := exec (init n hon f5 f6 f12) sched in
+  cp s c <> CNone -> (forall r, cp s c <> CRet r) -> exists c', closer_can_move s c'.
+Proof.
+  intros s Hn Hr. pose proof (i_c s (Inv_reach n hon f5 f6 f12 sched)) as IC.
+  destruct (cp s c) eqn:E; try congruence.
+  - destruct (closedLock s) as [c'|] eqn:EL.
+    + exists c'. apply holder_moves. apply (c_lock1 s IC c' EL).
+    + exists c. left. unfold step. rewrite E, EL. discriminate.
+  - exists c. apply holder_moves. rewrite E. reflexivity.
+  - exists c. apply holder_moves. rewrite E. reflexivity.
+  - exists c. apply holder_moves. rewrite E. reflexivity.
+  - exists c. apply holder_moves. rewrite E. reflexivity.
+  - exists c. apply holder_moves. rewrite E. reflexivity.
+Qed.
+
+(** a Close call takes at most six steps of its own; nobody else moves its program counter *)
+Definition crank (p : cpc) : nat :=
+  match p with CNone => 7 | CWant => 6 | CLocked => 5 | CSignal => 4 | CWait => 3 | CClosedCh _ => 2 | CUnlock _ => 1 | CRet _ => 0 end.
+Definition own_label (l : label) (c : cid) : bool :=
+  match l with LCall c' | LClose c' | LTimeout c' | LWaitDone c' => Nat.eqb c c' | _ => false end.
+
+Theorem close_steps_bounded s l s' c :
+  step s l = Some s' ->
+  (own_label l c = true -> crank (cp s' c) < crank (cp s c)) /\
+  (own_label l c = false -> cp s' c = cp s c).
+Proof.
+  intros H. destruct l; step_cases H; simpl; split; intros Ho; upd_all;
+    try reflexivity; try discriminate; try (rew_pcs; simpl; lia);
+    try (apply Nat.eqb_eq in Ho; congruence); try (rewrite Nat.eqb_refl in Ho; discriminate).
+Qed.
+
+(** the timeout is always available to the waiting closer and yields an error result *)
+Theorem timeout_returns_error s c :
+  cp s c = CWait -> exists s', step s (LTimeout c) = Some s' /\ cp s' c = CClosedCh RErr /\ close_res s' = Some RErr.
+Proof.
+  intros H. unfold step. rewrite H. eexists. split; [reflexivity|]. simpl. rewrite upd_same. auto.
+Qed.
+
+Theorem close_closes_subscriber n hon f5 f12 sched h :
+  let s := exec (init n hon f5 true f12) sched in
+  early_cancel s = false -> hc_decided (hc s h) = true -> 1 <= sub_closes s h.
+Proof.
+  intros s He Hd. pose proof (Inv_reach n hon f5 true f12 sched) as I. fold s in I.
+  apply (h_5 s (i_h s I) h); [|assumption|assumption].
+  destruct (flags_exec (init n hon f5 true f12) sched) as (_ & F & _). fold s in F. simpl in F. assumption.
+Qed.
+
+Theorem quiescent_closes_publishers n hon f5 f6 f12 sched h :
+  let s := exec (init n hon f5 f6 f12) sched in
+  quiescent s -> h < n -> 1 <= pub_closes s h.
+Proof.
+  intros s [_ Hq] Hlt. pose proof (Inv_reach n hon f5 f6 f12 sched) as I. fold s in I.
+  destruct (flags_exec (init n hon f5 f6 f12) sched) as (_ & _ & _ & Fn). fold s in Fn. simpl in Fn.
+  pose proof (a_base s (i_a s I)) as IA.
+  apply (a_pub s IA h). specialize (Hq h).
+  destruct (lp s h) eqn:E; simpl in *; try discriminate; [|reflexivity].
+  exfalso. apply (a_hb2 s IA h); [lia | assumption].
+Qed.
